@@ -59,7 +59,7 @@ func getEnv(mapping []string, maxMsg int) *env {
 	mf := promreg.NewMetricFactory("c09_", nil, nil)
 	counter := base.NewLogInputCounter(mf)
 	cfg := &sysloginput.Config{}
-	yml := "type: syslog\naddress: localhost:0\nlevelMapping: [" + quoteList(mapping) + "]\nextractions:\n  - type: delFields\n    keys: [scratch]\n"
+	yml := "type: syslog\naddress: localhost:0\nlevelMapping: [" + quoteList(mapping) + "]\nextractions:\n  - type: delFields\n    keys: [scratch]\n  - type: drop\n    match:\n      app: " + dropApp + "\n    percentage: 100\n    metricLabel: unwantedapp\n"
 	if err := util.UnmarshalYamlString(yml, cfg); err != nil {
 		panic(err)
 	}
@@ -93,6 +93,9 @@ func (e *env) snapshot() counts {
 		m.Sum("c09_labelled_records_total", "label=overflow"), m.Sum("c09_labelled_record_bytes_total", "label=overflow"),
 	}
 }
+
+// records of this app are dropped by a rule among the input extractions (after the parser has accepted them)
+const dropApp = "unwanted-app"
 
 var warmLine = []byte("<13>1 2020-01-01T00:00:00Z warmhost warmapp 99 warmid [sd] warm message that is long enough")
 
@@ -211,6 +214,14 @@ func run(c Case) vh.Result {
 		}
 		return res
 	}
+	if string(c.Line.App) == dropApp {
+		// dropped by the rule among the input extractions: counted as dropped (checked above), nothing returned
+		res.Classes = append(res.Classes, "dropped-by-an-input-extraction")
+		if rec != nil {
+			res.Violation = vh.Fail("parse:extraction-drop-ignored", "a record of app %q was returned although the drop rule among the extractions matches it", dropApp)
+		}
+		return res
+	}
 	if rec == nil {
 		res.Violation = vh.Fail("parse:valid-rejected", "well-formed line rejected: %.120q", input)
 		return res
@@ -325,6 +336,9 @@ func genValidLine(t *rapid.T, limit int) vh.SyslogLine {
 	}
 	l.Host = vh.GenToken(0, maxTok).Draw(t, "host")
 	l.App = vh.GenToken(0, maxTok).Draw(t, "app")
+	if rapid.IntRange(0, 9).Draw(t, "dropApp") == 0 {
+		l.App = []byte(dropApp)
+	}
 	l.Pid = vh.GenToken(0, 20).Draw(t, "pid")
 	l.MsgID = vh.GenToken(0, maxTok).Draw(t, "msgid")
 	l.SD = vh.GenToken(0, maxTok).Draw(t, "sd")
